@@ -1,4 +1,627 @@
+(* VectorizeProofs.v — lemmas about the model in Vectorize.v (C04).  All statements are for lists of any length
+   (any number of classes, units, edges); no computation-only sweeps. *)
 From Coq Require Import List ZArith QArith Qcanon Bool Arith Lia.
 From PV Require Import Vectorize.
 Import ListNotations.
-Lemma placeholder_true : True. Proof. exact I. Qed.
+Open Scope Qc_scope.
+
+(* ------------------------------------------------------------------------------------------ small facts *)
+Lemma Qc_eqb_eq : forall a b, Qc_eqb a b = true -> a = b.
+Proof.
+  intros a b H. unfold Qc_eqb in H. apply Qeq_bool_iff in H. apply Qc_is_canon. exact H.
+Qed.
+
+Lemma Qc_eqb_refl : forall a, Qc_eqb a a = true.
+Proof. intros a. unfold Qc_eqb. apply Qeq_bool_iff. reflexivity. Qed.
+
+Lemma mem_In : forall x l, mem x l = true <-> In x l.
+Proof.
+  induction l as [|y l IH]; cbn [mem In]; [split; [discriminate|tauto]|].
+  rewrite orb_true_iff, IH, Nat.eqb_eq. split; intros [H|H]; auto.
+Qed.
+
+Lemma mem_false : forall x l, mem x l = false <-> ~ In x l.
+Proof. intros. rewrite <- mem_In. destruct (mem x l); split; congruence. Qed.
+
+Lemma nodupb_NoDup : forall l, nodupb l = true -> NoDup l.
+Proof.
+  induction l as [|x l IH]; cbn [nodupb]; intros H; [constructor|].
+  apply andb_true_iff in H as [H1 H2]. constructor; [|auto].
+  apply negb_true_iff in H1. apply mem_false. exact H1.
+Qed.
+
+Lemma NoDup_nodupb : forall l, NoDup l -> nodupb l = true.
+Proof.
+  induction 1 as [|x l Hn Hd IH]; cbn [nodupb]; [reflexivity|].
+  rewrite IH, andb_true_r. apply negb_true_iff, mem_false. exact Hn.
+Qed.
+
+(* ------------------------------------------------------------------------------------------ 1. cache_func *)
+Definition preserved (vn vn' : list vnode) : Prop :=
+  forall j i, (i < length (members vn j))%nat ->
+    (i < length (members vn' j))%nat /\ nth i (members vn' j) 0%nat = nth i (members vn j) 0%nat.
+
+Lemma preserved_refl : forall vn, preserved vn vn.
+Proof. intros vn j i H; auto. Qed.
+
+Lemma preserved_trans : forall a b c, preserved a b -> preserved b c -> preserved a c.
+Proof.
+  intros a b c H1 H2 j i H. destruct (H1 j i H) as [H3 H4]. destruct (H2 j i H3) as [H5 H6].
+  split; [exact H5|congruence].
+Qed.
+
+Lemma members_cons_S : forall v vn j, members (v :: vn) (S j) = members vn j.
+Proof. reflexivity. Qed.
+
+Lemma members_nil : forall j, members [] j = [].
+Proof. intros [|j]; reflexivity. Qed.
+
+Lemma extend_spec : forall vn key n j0 vn' j a b,
+  extend vn key n j0 = (vn', (j, (a, b))) ->
+  b = S a /\ (j0 <= j)%nat /\ (a < length (members vn' (j - j0)))%nat /\
+  nth a (members vn' (j - j0)) 0%nat = n /\ preserved vn vn'.
+Proof.
+  induction vn as [|[k l] rest IH]; intros key n j0 vn' j a b H; cbn [extend] in H.
+  - inversion H; subst. rewrite Nat.sub_diag. unfold members at 1 2. cbn [nth snd length].
+    refine (conj _ (conj _ (conj _ (conj _ _)))); try lia; try reflexivity.
+    intros j' i' Hi. rewrite members_nil in Hi. cbn in Hi. lia.
+  - destruct (k =? key).
+    + inversion H; subst. rewrite Nat.sub_diag. unfold members at 1 2. cbn [nth snd].
+      rewrite app_length. cbn [length].
+      refine (conj _ (conj _ (conj _ (conj _ _)))); try lia.
+      * rewrite app_nth2 by lia. rewrite Nat.sub_diag. reflexivity.
+      * intros j' i' Hi. destruct j' as [|j'].
+        -- unfold members in *. cbn [nth snd] in *. rewrite app_length. split; [lia|].
+           apply app_nth1. exact Hi.
+        -- rewrite !members_cons_S in *. auto.
+    + destruct (extend rest key n (S j0)) as [rest' r] eqn:E. inversion H; subst.
+      destruct (IH _ _ _ _ _ _ _ E) as (Hb & Hj & Ha & Hn & Hp).
+      replace (j - j0)%nat with (S (j - S j0)) by lia. rewrite members_cons_S.
+      refine (conj _ (conj _ (conj _ (conj _ _)))); try lia; try assumption.
+      intros j' i' Hi. destruct j' as [|j']; [unfold members in *; cbn [nth snd] in *; auto|].
+      rewrite !members_cons_S in *. auto.
+Qed.
+
+Definition rng_default : nat * (nat * nat) := (0, (0, 0))%nat.
+
+Lemma cache_all_spec : forall ks vn n0 vn' rs,
+  cache_all vn ks n0 = (vn', rs) ->
+  length rs = length ks /\ preserved vn vn' /\
+  forall m, (m < length ks)%nat ->
+    let r := nth m rs rng_default in
+    snd (snd r) = S (fst (snd r)) /\
+    (fst (snd r) < length (members vn' (fst r)))%nat /\
+    nth (fst (snd r)) (members vn' (fst r)) 0%nat = (n0 + m)%nat.
+Proof.
+  induction ks as [|key ks IH]; intros vn n0 vn' rs H; cbn [cache_all] in H.
+  - inversion H; subst. cbn [length]. refine (conj eq_refl (conj (preserved_refl _) _)). intros; lia.
+  - destruct (extend vn key n0 0) as [vn1 r] eqn:E1.
+    destruct (cache_all vn1 ks (S n0)) as [vn2 rs2] eqn:E2. inversion H; subst.
+    destruct r as [j [a b]]. destruct (extend_spec _ _ _ _ _ _ _ _ E1) as (Hb & _ & Ha & Hn & Hp).
+    rewrite Nat.sub_0_r in Ha, Hn.
+    destruct (IH _ _ _ _ E2) as (Hl & Hp2 & Hm). cbn [length].
+    refine (conj _ (conj _ _)).
+    + lia.
+    + eapply preserved_trans; eauto.
+    + intros m Hlt. destruct m as [|m]; cbn [nth fst snd].
+      * destruct (Hp2 j a Ha) as [Hy Hx]. refine (conj Hb (conj Hy _)). rewrite Hx, Hn. lia.
+      * destruct (Hm m ltac:(lia)) as (Hx1 & Hx2 & Hx3). cbn zeta in Hx1, Hx2, Hx3.
+        refine (conj Hx1 (conj Hx2 _)). rewrite Hx3. lia.
+Qed.
+
+(* every frontend node finds itself at the (vector node, index) that cache_func handed out *)
+Theorem member_at_index : forall ks vn rs n, cache_all [] ks 0 = (vn, rs) -> (n < length ks)%nat ->
+  (snd (idx_of rs n) < length (members vn (fst (idx_of rs n))))%nat /\
+  nth (snd (idx_of rs n)) (members vn (fst (idx_of rs n))) 0%nat = n.
+Proof.
+  intros ks vn rs n H Hn. destruct (cache_all_spec _ _ _ _ _ H) as (_ & _ & Hm).
+  destruct (Hm n Hn) as (_ & H1 & H2). unfold idx_of. cbn [fst snd]. split; [exact H1|exact H2].
+Qed.
+
+(* two frontend nodes never share (vector node, index) *)
+Theorem index_map_injective : forall ks vn rs n1 n2, cache_all [] ks 0 = (vn, rs) ->
+  (n1 < length ks)%nat -> (n2 < length ks)%nat -> idx_of rs n1 = idx_of rs n2 -> n1 = n2.
+Proof.
+  intros ks vn rs n1 n2 H H1 H2 E.
+  destruct (member_at_index _ _ _ _ H H1) as [_ A]. destruct (member_at_index _ _ _ _ H H2) as [_ B].
+  rewrite E in A. congruence.
+Qed.
+
+(* the returned ranges have length one: (old_len, old_len + 1) *)
+Theorem ranges_unit : forall ks vn rs n, cache_all [] ks 0 = (vn, rs) -> (n < length ks)%nat ->
+  snd (snd (nth n rs rng_default)) = S (fst (snd (nth n rs rng_default))).
+Proof.
+  intros ks vn rs n H Hn. destruct (cache_all_spec _ _ _ _ _ H) as (_ & _ & Hm). apply (Hm n Hn).
+Qed.
+
+(* ------------------------------------------------------------------------------------------ 2. _group_edges *)
+Definition gtriples (g : grp) : list triple := zip3 (gw g) (gs g) (gt g).
+Definition aligned (g : grp) : Prop := length (gw g) = length (gs g) /\ length (gs g) = length (gt g).
+Definition etriple (ix : nat -> nat * nat) (e : edge) : triple := (ew e, snd (ix (esrc e)), snd (ix (etgt e))).
+Definition find_group (key : gkey) (l : list grp) : option grp := find (fun g => gkey_eqb (gk g) key) l.
+Definition content (l : list grp) (key : gkey) : list triple :=
+  match find_group key l with Some g => gtriples g | None => [] end.
+
+Lemma gkey_eqb_eq : forall a b, gkey_eqb a b = true <-> a = b.
+Proof.
+  intros [[a1 a2] a3] [[b1 b2] b3]. unfold gkey_eqb.
+  rewrite !andb_true_iff, !Nat.eqb_eq, eqb_true_iff. split.
+  - intros [[-> ->] ->]. reflexivity.
+  - intros H. inversion H. auto.
+Qed.
+
+Lemma gkey_eqb_refl : forall a, gkey_eqb a a = true.
+Proof. intros. apply gkey_eqb_eq. reflexivity. Qed.
+
+Lemma zip3_snoc : forall w s t a b c, length w = length s -> length s = length t ->
+  zip3 (w ++ [a]) (s ++ [b]) (t ++ [c]) = zip3 w s t ++ [(a, b, c)].
+Proof.
+  induction w as [|x w IH]; intros [|y s] [|z t] a b c H1 H2; cbn in *; try discriminate; [reflexivity|].
+  f_equal. apply IH; lia.
+Qed.
+
+Lemma add_group_aligned : forall l key w s t, Forall aligned l -> Forall aligned (add_group l key w s t).
+Proof.
+  induction l as [|g l IH]; intros key w s t H; cbn [add_group].
+  - constructor; [|constructor]. split; reflexivity.
+  - inversion H as [|? ? Hg Hl]; subst. destruct (gkey_eqb (gk g) key).
+    + constructor; [|exact Hl]. destruct Hg as [A B]. split; cbn [gw gs gt]; rewrite !app_length; cbn; lia.
+    + constructor; [exact Hg|apply IH; exact Hl].
+Qed.
+
+Lemma add_group_content : forall l key w s t key', Forall aligned l ->
+  content (add_group l key w s t) key' =
+  if gkey_eqb key key' then content l key' ++ [(w, s, t)] else content l key'.
+Proof.
+  induction l as [|g l IH]; intros key w s t key' H; unfold content, find_group; cbn [add_group find].
+  - cbn [gk]. destruct (gkey_eqb key key'); reflexivity.
+  - inversion H as [|? ? Hg Hl]; subst.
+    destruct (gkey_eqb (gk g) key) eqn:E1.
+    + apply gkey_eqb_eq in E1. subst key. cbn [find gk].
+      destruct (gkey_eqb (gk g) key') eqn:E2; [|reflexivity].
+      unfold gtriples. cbn [gw gs gt]. destruct Hg as [A B]. apply zip3_snoc; assumption.
+    + cbn [find]. destruct (gkey_eqb (gk g) key') eqn:E2.
+      * apply gkey_eqb_eq in E2. subst key'. destruct (gkey_eqb key (gk g)) eqn:E3; [|reflexivity].
+        apply gkey_eqb_eq in E3. subst key. rewrite gkey_eqb_refl in E1. discriminate.
+      * apply (IH key w s t key' Hl).
+Qed.
+
+Lemma group_fold_content : forall ix es l key, Forall aligned l ->
+  Forall aligned (fold_left (group_step ix) es l) /\
+  content (fold_left (group_step ix) es l) key =
+  content l key ++ map (etriple ix) (filter (fun e => gkey_eqb (ekey ix e) key) es).
+Proof.
+  induction es as [|e es IH]; intros l key H; cbn [fold_left filter map].
+  - split; [exact H|]. rewrite app_nil_r. reflexivity.
+  - assert (H' : Forall aligned (group_step ix l e)) by (apply add_group_aligned; exact H).
+    destruct (IH (group_step ix l e) key H') as [A B]. split; [exact A|]. rewrite B.
+    unfold group_step at 1. rewrite add_group_content by exact H.
+    destruct (gkey_eqb (ekey ix e) key); cbn [map]; [|reflexivity].
+    rewrite <- app_assoc. reflexivity.
+Qed.
+
+(* the three lists of every group have equal lengths, and the k-th entries of the group with a given key are
+   the weight / source index / target index of the k-th edge (in edge-list order) that has this key *)
+Theorem group_edges_aligned : forall ix es, Forall aligned (group_edges ix es).
+Proof. intros. apply (group_fold_content ix es [] (0%nat, false, 0%nat)). constructor. Qed.
+
+Theorem group_edges_content : forall ix es key,
+  content (group_edges ix es) key = map (etriple ix) (filter (fun e => gkey_eqb (ekey ix e) key) es).
+Proof. intros. apply (group_fold_content ix es [] key). constructor. Qed.
+
+(* ------------------------------------------------------------------------------------------ 3. dot / indexed = edge sum *)
+(* Spec of one contribution: sum over the list of (w, s, t) with t = u *)
+Fixpoint tsum (tr : list triple) (sval : nat -> Qc) (u : nat) : Qc :=
+  match tr with
+  | [] => 0
+  | (w, s, t) :: tr' => (if t =? u then w * sval s else 0) + tsum tr' sval u
+  end.
+Definition targets (tr : list triple) : list nat := map snd tr.
+Definition sources (tr : list triple) : list nat := map (fun e => snd (fst e)) tr.
+
+Lemma tsum_notin : forall tr sval u, ~ In u (targets tr) -> tsum tr sval u = 0.
+Proof.
+  induction tr as [|[[w s] t] tr IH]; intros sval u H; cbn [tsum]; [reflexivity|].
+  cbn [targets map snd In] in H. destruct (Nat.eqb_spec t u) as [->|Hn]; [tauto|].
+  rewrite IH by tauto. ring.
+Qed.
+
+Lemma build_add_entry : forall tr W0 r c,
+  fold_left (fun W e => let '(w, s, t) := e in upd2 W t s (W t s + w)) tr W0 r c
+  = W0 r c + tsum tr (fun s => if s =? c then 1 else 0) r.
+Proof.
+  induction tr as [|[[w s] t] tr IH]; intros W0 r c; cbn [fold_left tsum].
+  - ring.
+  - rewrite IH. unfold upd2.
+    destruct (Nat.eqb_spec t r) as [->|Hn]; cbn [andb].
+    + destruct (Nat.eqb_spec s c) as [->|Hc]; ring.
+    + ring.
+Qed.
+
+Lemma qsum_map_ext : forall (f g : nat -> Qc) l, (forall c, In c l -> f c = g c) -> qsum (map f l) = qsum (map g l).
+Proof. induction l; cbn [map qsum]; intros H; [reflexivity|]. rewrite H, IHl; auto with datatypes. Qed.
+Lemma qsum_map_add : forall (f g : nat -> Qc) l, qsum (map (fun c => f c + g c) l) = qsum (map f l) + qsum (map g l).
+Proof. induction l; cbn [map qsum]; [ring|]. rewrite IHl. ring. Qed.
+Lemma qsum_map_zero : forall l : list nat, qsum (map (fun _ => 0) l) = 0.
+Proof. induction l; cbn [map qsum]; [reflexivity|]. rewrite IHl. ring. Qed.
+
+Lemma qsum_indicator : forall cols (g : nat -> Qc) s, NoDup cols -> In s cols ->
+  qsum (map (fun c => (if s =? c then 1 else 0) * g c) cols) = g s.
+Proof.
+  induction cols as [|a cols IH]; intros g s Hnd Hin; [inversion Hin|].
+  inversion Hnd as [|? ? Hna Hnd']; subst. cbn [map qsum].
+  destruct Hin as [->|Hin].
+  - rewrite Nat.eqb_refl.
+    rewrite (qsum_map_ext _ (fun _ => 0)).
+    + rewrite qsum_map_zero. ring.
+    + intros c Hc. destruct (Nat.eqb_spec s c) as [->|Hb]; [contradiction|ring].
+  - destruct (Nat.eqb_spec s a) as [->|Hsa]; [contradiction|].
+    rewrite IH by assumption. ring.
+Qed.
+
+(* matrix path (weight matrix built with +=) = edge sum, parallel edges included *)
+Lemma matvec_add_is_edge_sum : forall tr cols sval u,
+  NoDup cols -> (forall s, In s (sources tr) -> In s cols) ->
+  qsum (map (fun s => build_add tr u s * sval s) cols) = tsum tr sval u.
+Proof.
+  intros tr cols sval u Hnd Hcov. unfold build_add.
+  rewrite (qsum_map_ext _ (fun c => tsum tr (fun s => if s =? c then 1 else 0) u * sval c)).
+  2:{ intros c _. rewrite build_add_entry. ring. }
+  induction tr as [|[[w s] t] tr IH]; cbn [tsum].
+  - rewrite (qsum_map_ext _ (fun _ => 0)) by (intros; ring). apply qsum_map_zero.
+  - rewrite (qsum_map_ext _ (fun c => (if t =? u then w * (if s =? c then 1 else 0) else 0) * sval c
+                                + tsum tr (fun s0 => if s0 =? c then 1 else 0) u * sval c)) by (intros; ring).
+    rewrite qsum_map_add. rewrite IH by (intros; apply Hcov; right; assumption). f_equal.
+    destruct (Nat.eqb_spec t u) as [->|Hn].
+    + rewrite (qsum_map_ext _ (fun c => (if s =? c then 1 else 0) * (w * sval c))) by (intros; destruct (s =? c); ring).
+      apply qsum_indicator; [assumption|]. apply Hcov. left. reflexivity.
+    + rewrite (qsum_map_ext _ (fun _ => 0)) by (intros; ring). apply qsum_map_zero.
+Qed.
+
+(* np.unique *)
+Lemma ins_In : forall x y l, In y (ins x l) <-> y = x \/ In y l.
+Proof.
+  induction l as [|z l IH]; cbn [ins In]; [intuition congruence|].
+  destruct (x <? z); cbn [In]; [intuition congruence|].
+  destruct (Nat.eqb_spec x z) as [->|Hn]; cbn [In]; [intuition congruence|]. rewrite IH. intuition congruence.
+Qed.
+
+Lemma sort_u_In : forall y l, In y (sort_u l) <-> In y l.
+Proof.
+  induction l as [|x l IH]; cbn [sort_u fold_right In]; [tauto|].
+  fold (sort_u l). rewrite ins_In, IH. split; intros [H|H]; auto.
+Qed.
+
+Fixpoint ssorted (l : list nat) : Prop :=
+  match l with [] => True | x :: l' => (forall y, In y l' -> (x < y)%nat) /\ ssorted l' end.
+
+Lemma ins_ssorted : forall x l, ssorted l -> ssorted (ins x l).
+Proof.
+  induction l as [|z l IH]; cbn [ins ssorted]; intros H.
+  - split; [intros y []|exact I].
+  - destruct H as [H1 H2]. destruct (Nat.ltb_spec x z) as [Hlt|Hge]; cbn [ssorted].
+    + split; [|split; assumption]. intros y [<-|Hy]; [exact Hlt|]. specialize (H1 y Hy). lia.
+    + destruct (Nat.eqb_spec x z) as [->|Hn]; cbn [ssorted]; [split; assumption|].
+      split; [|apply IH; exact H2]. intros y Hy. apply ins_In in Hy as [->|Hy]; [lia|auto].
+Qed.
+
+Lemma sort_u_ssorted : forall l, ssorted (sort_u l).
+Proof. induction l as [|x l IH]; cbn [sort_u fold_right]; [exact I|]. apply ins_ssorted. exact IH. Qed.
+
+Lemma ssorted_NoDup : forall l, ssorted l -> NoDup l.
+Proof.
+  induction l as [|x l IH]; cbn [ssorted]; intros H; constructor.
+  - intros Hin. destruct H as [H _]. specialize (H x Hin). lia.
+  - apply IH. apply H.
+Qed.
+
+Lemma sort_u_NoDup : forall l, NoDup (sort_u l).
+Proof. intros. apply ssorted_NoDup, sort_u_ssorted. Qed.
+
+Lemma lookup_map : forall (F : nat -> Qc) l u,
+  lookup (map (fun t => (t, F t)) l) u = if mem u l then Some (F u) else None.
+Proof.
+  induction l as [|t l IH]; intros u; cbn [map lookup mem]; [reflexivity|].
+  rewrite (Nat.eqb_sym u t). destruct (Nat.eqb_spec t u) as [->|Hn]; cbn [orb]; [reflexivity|apply IH].
+Qed.
+
+Lemma mem_sort_u : forall u l, mem u (sort_u l) = mem u l.
+Proof.
+  intros. destruct (mem u l) eqn:E.
+  - apply mem_In. apply sort_u_In. apply mem_In. exact E.
+  - apply mem_false. rewrite sort_u_In. apply mem_false. exact E.
+Qed.
+
+(* dot branch: ANY list of edges (parallel edges, repeated targets, repeated sources) *)
+Theorem dot_is_edge_sum : forall tr sval u,
+  lookup (contrib_dot tr sval) u = if mem u (targets tr) then Some (tsum tr sval u) else None.
+Proof.
+  intros. unfold contrib_dot. rewrite lookup_map. fold (targets tr). fold (sources tr). rewrite mem_sort_u.
+  destruct (mem u (targets tr)); [|reflexivity]. f_equal.
+  apply matvec_add_is_edge_sum; [apply sort_u_NoDup|]. intros s Hs. apply sort_u_In. exact Hs.
+Qed.
+
+(* indexed branch: when no target index is repeated — which is exactly what the branch condition ensures *)
+Lemma idx_fold : forall tr sval u acc, NoDup (targets tr) ->
+  lookup (fold_left (fun a e => let '(w, s, t) := e in (t, sval s * w) :: a) tr acc) u =
+  if mem u (targets tr) then Some (tsum tr sval u) else lookup acc u.
+Proof.
+  induction tr as [|[[w s] t] tr IH]; intros sval u acc H; cbn [fold_left targets map mem tsum snd]; [reflexivity|].
+  inversion H as [|? ? Hn Hd]; subst. fold (targets tr) in *. rewrite IH by exact Hd.
+  rewrite (Nat.eqb_sym u t). destruct (Nat.eqb_spec t u) as [->|Hne]; cbn [orb].
+  - assert (Hm : mem u (targets tr) = false) by (apply mem_false; exact Hn). rewrite Hm.
+    cbn [lookup]. rewrite Nat.eqb_refl. rewrite (tsum_notin tr sval u Hn). f_equal. ring.
+  - destruct (mem u (targets tr)).
+    + f_equal. ring.
+    + cbn [lookup]. destruct (Nat.eqb_spec t u); [contradiction|reflexivity].
+Qed.
+
+Theorem idx_is_edge_sum : forall tr sval u, NoDup (targets tr) ->
+  lookup (contrib_idx tr sval) u = if mem u (targets tr) then Some (tsum tr sval u) else None.
+Proof.
+  intros. unfold contrib_idx. rewrite idx_fold by assumption. destruct (mem u (targets tr)); reflexivity.
+Qed.
+
+(* ... and without that condition the indexed form is NOT the edge sum (what the seeded bug "indexed branch with
+   duplicates" would compute): two edges into one unit, the later assignment overwrites the earlier *)
+Lemma idx_with_duplicates_refuted : exists tr sval u,
+  lookup (contrib_idx tr sval) u <> Some (tsum tr sval u) /\ lookup (contrib_dot tr sval) u = Some (tsum tr sval u).
+Proof.
+  exists [(mkq 2 1, 0%nat, 0%nat); (mkq 3 1, 1%nat, 0%nat)], (fun _ => mkq 1 1), 0%nat.
+  split; [|rewrite dot_is_edge_sum; reflexivity].
+  intros H. apply (f_equal (fun o => match o with Some v => Qc_eqb v (mkq 5 1) | None => false end)) in H.
+  vm_compute in H. discriminate.
+Qed.
+
+(* 4. the branch choice (matrix_sparseness threshold) is semantics-preserving *)
+Definition aligned_m (m : mrg) : Prop := length (mw m) = length (ms m) /\ length (ms m) = length (mt m).
+Definition mtriples (m : mrg) : list triple := zip3 (mw m) (ms m) (mt m).
+
+Lemma zip3_targets : forall w s t, length w = length s -> length s = length t -> targets (zip3 w s t) = t.
+Proof.
+  induction w as [|a w IH]; intros [|b s] [|c t] H1 H2; cbn in *; try discriminate; [reflexivity|].
+  f_equal. apply IH; lia.
+Qed.
+
+Theorem contrib_is_edge_sum : forall tsize ssize m sval a u, aligned_m m ->
+  contrib tsize ssize m sval = Some a ->
+  lookup a u = if mem u (mt m) then Some (tsum (mtriples m) sval u) else None.
+Proof.
+  intros tsize ssize m sval a u [A B] H. unfold contrib in H.
+  assert (T : targets (mtriples m) = mt m) by (apply zip3_targets; assumption).
+  destruct (dot_edge tsize ssize (mt m)) eqn:D.
+  - inversion H; subst. rewrite dot_is_edge_sum. fold (mtriples m). rewrite T. reflexivity.
+  - destruct ((ssize =? 1) && (1 <? length (mt m))); [discriminate|]. inversion H; subst.
+    unfold dot_edge in D. apply orb_false_iff in D as [D _]. apply negb_false_iff in D.
+    fold (mtriples m). rewrite idx_is_edge_sum; rewrite T; [reflexivity|]. apply nodupb_NoDup. exact D.
+Qed.
+
+(* the indexed branch is taken only when no target index is repeated *)
+Theorem indexed_branch_condition : forall tsize ssize ti, dot_edge tsize ssize ti = false -> NoDup ti.
+Proof.
+  intros tsize ssize ti D. unfold dot_edge in D. apply orb_false_iff in D as [D _].
+  apply negb_false_iff in D. apply nodupb_NoDup. exact D.
+Qed.
+
+(* ------------------------------------------------------------------------------------------ 5. several sources, default *)
+Definition hits (u : nat) (m : mrg) : bool := mem u (mt m).
+
+Fixpoint msum (ml : list mrg) (sval : mrg -> nat -> Qc) (u : nat) : Qc :=
+  match ml with [] => 0 | m :: ml' => tsum (mtriples m) (sval m) u + msum ml' sval u end.
+
+Lemma all_some_cons : forall {A} (o : option A) l r, all_some (o :: l) = Some r ->
+  exists a r', o = Some a /\ all_some l = Some r' /\ r = a :: r'.
+Proof.
+  intros A o l r H. cbn [all_some] in H. destruct o as [a|]; [|discriminate].
+  destruct (all_some l) as [r'|]; [|discriminate]. inversion H. eauto.
+Qed.
+
+Lemma zero_buffer_sum : forall tsize ssize sval ml cs u, Forall aligned_m ml ->
+  all_some (map (fun m => contrib tsize (ssize m) m (sval m)) ml) = Some cs ->
+  qsum (map (fun a => match lookup a u with Some v => v | None => 0 end) cs) = msum ml sval u.
+Proof.
+  induction ml as [|m ml IH]; intros cs u HA H.
+  - cbn in H. inversion H. reflexivity.
+  - cbn [map] in H. apply all_some_cons in H as (a & r' & H1 & H2 & ->).
+    inversion HA as [|? ? Hm Hml]; subst. cbn [map qsum msum].
+    rewrite (contrib_is_edge_sum _ _ _ _ _ u Hm H1). rewrite (IH _ _ Hml H2). f_equal.
+    destruct (mem u (mt m)) eqn:E; [reflexivity|].
+    symmetry. apply tsum_notin. unfold mtriples. rewrite zip3_targets by apply Hm. apply mem_false. exact E.
+Qed.
+
+Lemma msum_nohit : forall ml sval u, Forall aligned_m ml -> existsb (hits u) ml = false -> msum ml sval u = 0.
+Proof.
+  induction ml as [|m ml IH]; intros sval u HA H; cbn [msum]; [reflexivity|].
+  cbn [existsb] in H. apply orb_false_iff in H as [H1 H2]. inversion HA as [|? ? Hm Hml]; subst.
+  rewrite IH by assumption. rewrite tsum_notin; [ring|].
+  unfold mtriples. rewrite zip3_targets by apply Hm. apply mem_false. exact H1.
+Qed.
+
+(* Input of target unit u of a vector node, from the merged per-source lists `ml`:
+   - if some edge reaches u: the sum over ALL merged edge lists of w * source value      (dot/indexed choice, `+` of buffers)
+   - otherwise the declared default, PROVIDED there are fewer than two source vector nodes or the default is 0 *)
+Theorem input_is_edge_sum : forall tsize ssize sval ml cs rdef u, Forall aligned_m ml ->
+  all_some (map (fun m => contrib tsize (ssize m) m (sval m)) ml) = Some cs ->
+  ((length ml < 2)%nat \/ rdef = 0 \/ existsb (hits u) ml = true) ->
+  input_of cs rdef u = if existsb (hits u) ml then msum ml sval u else rdef.
+Proof.
+  intros tsize ssize sval ml cs rdef u HA H G.
+  destruct ml as [|m1 [|m2 ml]].
+  - cbn in H. inversion H. reflexivity.
+  - cbn [map] in H. apply all_some_cons in H as (a & r' & H1 & H2 & ->). cbn in H2. inversion H2; subst.
+    inversion HA as [|? ? Hm _]; subst. cbn [input_of existsb msum hits].
+    rewrite (contrib_is_edge_sum _ _ _ _ _ u Hm H1). rewrite orb_false_r.
+    unfold hits. destruct (mem u (mt m1)); [ring|reflexivity].
+  - assert (L : exists a b cs', cs = a :: b :: cs').
+    { cbn [map] in H. apply all_some_cons in H as (a & r' & _ & H2 & ->).
+      apply all_some_cons in H2 as (b & r'' & _ & _ & ->). eauto. }
+    destruct L as (a & b & cs' & ->). cbn [input_of].
+    rewrite (zero_buffer_sum _ _ _ _ _ u HA H).
+    destruct (existsb (hits u) (m1 :: m2 :: ml)) eqn:E; [reflexivity|].
+    rewrite msum_nohit by assumption.
+    destruct G as [G|[G|G]]; [cbn in G; lia|symmetry; exact G|discriminate].
+Qed.
+
+(* D14: with two or more source vector nodes an unconnected unit gets 0, whatever its default *)
+Theorem unconnected_unit_gets_zero : forall tsize ssize sval ml cs rdef u, Forall aligned_m ml ->
+  all_some (map (fun m => contrib tsize (ssize m) m (sval m)) ml) = Some cs ->
+  (2 <= length ml)%nat -> existsb (hits u) ml = false -> input_of cs rdef u = 0.
+Proof.
+  intros tsize ssize sval ml cs rdef u HA H L E.
+  destruct ml as [|m1 [|m2 ml]]; [cbn in L; lia|cbn in L; lia|].
+  assert (X : exists a b cs', cs = a :: b :: cs').
+  { cbn [map] in H. apply all_some_cons in H as (a & r' & _ & H2 & ->).
+    apply all_some_cons in H2 as (b & r'' & _ & _ & ->). eauto. }
+  destruct X as (a & b & cs' & ->). cbn [input_of].
+  rewrite (zero_buffer_sum _ _ _ _ _ u HA H). apply msum_nohit; assumption.
+Qed.
+
+(* ------------------------------------------------------------------------------------------ 6. _finalize_var_def *)
+Lemma all_eqb_nth : forall a l i, all_eqb a l = true -> (i < length l)%nat -> nth i l 0 = a.
+Proof.
+  induction l as [|b l IH]; intros i H Hi; cbn in Hi; [lia|].
+  cbn [all_eqb forallb] in H. apply andb_true_iff in H as [H1 H2]. apply Qc_eqb_eq in H1. subst b.
+  destruct i; [reflexivity|]. apply IH; [exact H2|lia].
+Qed.
+
+(* collapsing a constant vector with one distinct value to a scalar preserves every element under broadcasting *)
+Theorem finalize_preserves : forall l i, (i < length l)%nat -> bget (finalize l) i = nth i l 0.
+Proof.
+  intros [|a l] i Hi; [cbn in Hi; lia|]. unfold finalize.
+  destruct (all_eqb a l) eqn:E; [|reflexivity]. cbn [bget].
+  destruct i; [reflexivity|]. cbn [nth]. symmetry. apply all_eqb_nth; [exact E|cbn in Hi; lia].
+Qed.
+
+(* collapsing a vector whose values are not all equal does not (seeded bug "collapse") *)
+Lemma collapse_unequal_refuted : exists l i, (i < length l)%nat /\ bget (CScalar (hd 0 l)) i <> nth i l 0.
+Proof.
+  exists [mkq 1 2; mkq 2 1], 1%nat. split; [cbn; lia|]. cbn [bget hd nth]. intros H.
+  apply (f_equal (fun v => Qc_eqb v (mkq 2 1))) in H. vm_compute in H. discriminate.
+Qed.
+
+(* ------------------------------------------------------------------------------------------ 7. composed statement at the level of one target unit *)
+Definition default_survives_at (ml : list mrg) (rdef : Qc) (u : nat) : bool :=
+  (length ml <? 2)%nat || Qc_eqb rdef 0 || existsb (hits u) ml.
+
+Theorem input_partial : forall tsize ssize sval ml cs rdef u, Forall aligned_m ml ->
+  all_some (map (fun m => contrib tsize (ssize m) m (sval m)) ml) = Some cs ->
+  default_survives_at ml rdef u = true ->
+  input_of cs rdef u = if existsb (hits u) ml then msum ml sval u else rdef.
+Proof.
+  intros tsize ssize sval ml cs rdef u HA H G. apply (input_is_edge_sum tsize ssize sval ml cs rdef u HA H).
+  unfold default_survives_at in G. apply orb_true_iff in G as [G|G]; [apply orb_true_iff in G as [G|G]|].
+  - left. apply Nat.ltb_lt. exact G.
+  - right. left. apply Qc_eqb_eq. exact G.
+  - right. right. exact G.
+Qed.
+
+(* ------------------------------------------------------------------------------------------ 8. whole-circuit witnesses *)
+Lemma qlist_eqb_refl : forall l, qlist_eqb l l = true.
+Proof. induction l as [|a l IH]; cbn [qlist_eqb]; [reflexivity|]. rewrite Qc_eqb_refl, IH. reflexivity. Qed.
+
+Lemma qlist_eqb_eq : forall a b, qlist_eqb a b = true -> a = b.
+Proof.
+  induction a as [|x a IH]; intros [|y b] H; cbn [qlist_eqb] in H; try discriminate; [reflexivity|].
+  apply andb_true_iff in H as [H1 H2]. apply Qc_eqb_eq in H1. rewrite (IH b H2), H1. reflexivity.
+Qed.
+
+Lemma oq_eqb_eq : forall a b, oq_eqb a b = true -> a = b.
+Proof. intros [a|] [b|] H; cbn in H; try discriminate; [f_equal; apply qlist_eqb_eq; exact H|reflexivity]. Qed.
+
+Lemma oq_eqb_neq : forall a b, oq_eqb a b = false -> a <> b.
+Proof.
+  intros a b H E. subst b. destruct a as [a|]; cbn in H; [rewrite qlist_eqb_refl in H|]; discriminate.
+Qed.
+
+Ltac witness :=
+  repeat (match goal with |- _ /\ _ => split end);
+  first [ vm_compute; reflexivity
+        | apply oq_eqb_eq; vm_compute; reflexivity
+        | apply oq_eqb_neq; vm_compute; reflexivity
+        | apply Qc_eqb_eq; vm_compute; reflexivity
+        | apply qlist_eqb_eq; vm_compute; reflexivity ].
+
+Definition q (n : Z) : Qc := mkq n 1.
+(* x' = r - x  (default of r: d) *)
+Definition clsA (d : Qc) : cls := Cls [Mono (q 1) 0 0 1; Mono (q (-1)) 1 0 0] None d.
+(* x' = 2*k*r - x *)
+Definition clsB : cls := Cls [Mono (q 2) 0 1 1; Mono (q (-1)) 1 0 0] None 0.
+(* x' = r - 2*x *)
+Definition clsC : cls := Cls [Mono (q 1) 0 0 1; Mono (q (-2)) 1 0 0] None 0.
+(* m = 2*x + k ; x' = r - x + k *)
+Definition clsG : cls := Cls [Mono (q 1) 0 0 1; Mono (q (-1)) 1 0 0; Mono (q 1) 0 1 0] (Some [Mono (q 2) 1 0 0; Mono (q 1) 0 1 0]) 0.
+
+(* D14 (corpus/C04/D14_default_lost.json): three merged targets with default 7, two source classes, node 2 unconnected *)
+Definition w_d14 : circuit :=
+  Circ [clsA (q 7); clsB; clsC]
+       [Node 0 (q 1); Node 0 (q 1); Node 0 (q 1); Node 1 (mkq 1 2); Node 2 (q 1)]
+       [Edge 3 0 (q 2) false; Edge 4 1 (q 3) false].
+Definition st_d14 : list Qc := [q 1; q 2; q 3; mkq 1 2; q (-1)].
+
+Lemma refuted_default :
+  wf w_d14 = true /\ no_constant_rhs w_d14 = true /\ single_source_var w_d14 = true /\ no_scalar_fanout w_d14 = true /\
+  default_survives w_d14 = false /\
+  impl false w_d14 st_d14 = Some (spec w_d14 st_d14) /\
+  impl true w_d14 st_d14 <> Some (spec w_d14 st_d14) /\
+  (* the unconnected node 2: 7 - 3 = 4 by the edge list, 0 - 3 = -3 vectorized *)
+  nth 2 (spec w_d14 st_d14) 0 = q 4 /\ impl true w_d14 st_d14 = Some [q 0; q (-5); q (-3); mkq (-1) 2; q 2].
+Proof. witness. Qed.
+
+(* D3 (corpus/C04/D03_two_source_vars.json): n0/x and n1/m of one class into n2/r *)
+Definition w_d03 : circuit :=
+  Circ [clsG; clsC] [Node 0 (q 1); Node 0 (q 3); Node 1 (q 1)] [Edge 0 2 (q 1) false; Edge 1 2 (q 1) true].
+Definition st_d03 : list Qc := [q 1; q 2; q 5].
+
+Lemma refuted_source_var :
+  wf w_d03 = true /\ default_survives w_d03 = true /\ no_constant_rhs w_d03 = true /\ no_scalar_fanout w_d03 = true /\
+  single_source_var w_d03 = false /\
+  impl false w_d03 st_d03 = Some (spec w_d03 st_d03) /\ impl true w_d03 st_d03 <> Some (spec w_d03 st_d03).
+Proof. witness. Qed.
+
+(* D21 (corpus/C04/D21_constant_rhs.json): x' = -1 - x + x on two nodes: Err when vectorized, fine otherwise *)
+Definition w_d21 : circuit :=
+  Circ [Cls [Mono (q (-1)) 0 0 0; Mono (q (-1)) 1 0 0; Mono (q 1) 1 0 0] None 0] [Node 0 (q 1); Node 0 (q 2)] [].
+Lemma err_constant_rhs :
+  wf w_d21 = true /\ no_constant_rhs w_d21 = false /\ impl true w_d21 [q 1; q 2] = None /\
+  impl false w_d21 [q 1; q 2] = Some (spec w_d21 [q 1; q 2]).
+Proof. witness. Qed.
+
+(* D32 (corpus/C04/D32_scalar_fanout.json): one node of a single-unit class to 10 nodes of one class *)
+Definition w_d32 : circuit :=
+  Circ [clsA 0; clsB] (Node 1 (mkq 1 2) :: repeat (Node 0 (q 1)) 10)
+       (map (fun i => Edge 0 (S i) (q (Z.of_nat (S i))) false) (seq 0 10)).
+Definition st_d32 : list Qc := map (fun i => q (Z.of_nat i)) (seq 0 11).
+Lemma err_scalar_fanout :
+  wf w_d32 = true /\ no_scalar_fanout w_d32 = false /\ impl true w_d32 st_d32 = None /\
+  impl false w_d32 st_d32 = Some (spec w_d32 st_d32).
+Proof. witness. Qed.
+
+(* the full-strength statement and its refutation *)
+Definition full_statement : Prop := forall c st, wf c = true -> length st = length (cnodes c) ->
+  impl true c st = Some (spec c st) /\ impl false c st = Some (spec c st).
+
+Lemma full_statement_refuted : ~ full_statement.
+Proof.
+  intros F. destruct (F w_d14 st_d14) as [H _]; [vm_compute; reflexivity|reflexivity|].
+  destruct refuted_default as (_ & _ & _ & _ & _ & _ & N & _). exact (N H).
+Qed.
+
+(* the end-to-end statement under the guards (NOT proved here: the merge of the per-unit theorems above with the
+   regrouping of the edge list by (source class, target class) is not mechanised; every generated circuit that
+   satisfies the guards is checked against it by the correspondence run) *)
+Definition guarded_statement : Prop := forall c st, wf c = true -> guard c = true -> length st = length (cnodes c) ->
+  impl true c st = Some (spec c st) /\ impl false c st = Some (spec c st).
+
+(* non-vacuity: a circuit inside all guards with two classes, merged units, fan-in from two classes, parallel edges,
+   a self-connection and an algebraic source; Impl (both modes) = Spec *)
+Definition w_ok : circuit :=
+  Circ [clsA 0; clsG]
+       [Node 0 (q 1); Node 1 (mkq 1 2); Node 0 (q 2); Node 1 (q 3); Node 0 (mkq 3 2)]
+       [Edge 1 0 (q 2) true; Edge 3 0 (mkq 1 2) true; Edge 1 0 (q 1) true; Edge 0 2 (q (-1)) false; Edge 2 2 (q 3) false;
+        Edge 4 1 (q 1) false; Edge 3 3 (q 2) true; Edge 2 4 (mkq 1 4) false; Edge 1 4 (q 5) true; Edge 0 3 (q 1) false].
+Definition st_ok : list Qc := [q 1; mkq (-1) 2; q 2; mkq 3 4; q (-3)].
+Lemma nonvacuous :
+  wf w_ok = true /\ guard w_ok = true /\
+  impl true w_ok st_ok = Some (spec w_ok st_ok) /\ impl false w_ok st_ok = Some (spec w_ok st_ok) /\
+  spec w_ok st_ok = [mkq (-1) 4; q (-2); q 3; mkq 49 4; q 1].
+Proof. witness. Qed.
